@@ -1445,20 +1445,28 @@ class FileBuilder:
             OSError: If we are unable to create the directory.
         """
         dirs_to_make = self._dirs_to_make(dir_, None)
-        for parent in dirs_to_make:
-            if (os.path.isfile(parent) and
-                    self._old_cache.created_norm_cased_file(
-                        os.path.normcase(parent)) and
-                    self._backups.back_up_and_remove(parent)):
-                logger.info(
-                    'Moved {:s} to a temporary directory, in order to create '
-                    'a directory with that filename'.format(parent))
+        made_dirs = []
+        try:
+            for parent in dirs_to_make:
+                if (os.path.isfile(parent) and
+                        self._old_cache.created_norm_cased_file(
+                            os.path.normcase(parent)) and
+                        self._backups.back_up_and_remove(parent)):
+                    logger.info(
+                        'Moved {:s} to a temporary directory, in order to '
+                        'create a directory with that filename'.format(parent))
 
-            try:
-                os.mkdir(parent)
-            except FileExistsError:
-                continue
-            logger.info('Created directory {:s}'.format(parent))
+                try:
+                    os.mkdir(parent)
+                except FileExistsError:
+                    continue
+                made_dirs.append(parent)
+                logger.info('Created directory {:s}'.format(parent))
+        except OSError:
+            # Don't leave behind the directories we managed to create, because
+            # the caller doesn't learn about them
+            FileBuilder._remove_empty_dirs(made_dirs)
+            raise
         return dirs_to_make
 
     def _make_room(self, dir_, make_room_filename):
